@@ -71,7 +71,8 @@ def check_offline(ix, rep, mon, which=('R-WINDOW', 'R-INDEX')):
         rep.unit(f.module.rel)
         slot = '%s:%s' % (mon.kind, nc.name)
         try:
-            runs = W.with_splits(lambda fx: W.summarize_offline(f.node, nc.name, fx))
+            helpers = {fn.name: fn for fn in f.module.tree.body if isinstance(fn, ast.FunctionDef)}
+            runs = W.with_splits(lambda fx: W.summarize_offline(f.node, nc.name, fx, helpers=helpers))
             cases = [c for _fx, (cs, _it) in runs for c in cs]
             it = _merge_interps([r[1] for _fx, r in runs])
         except W.Unknown as e:
